@@ -1383,7 +1383,8 @@ def foreign_tree(rng, cs, depth=0, n_entries=6, oem_high=False):
             e["noend"] = rng.random() < 0.15
         entries.append(e)
     if depth == 0 and rng.random() < 0.7:
-        entries.insert(rng.randrange(len(entries) + 1), {"kind": "v", "sfn": "MY LABEL   "})
+        # (a label slot is one whose attribute byte has the volume bit; other writers set the archive / read-only / hidden bits next to it)
+        entries.insert(rng.randrange(len(entries) + 1), {"kind": "v", "sfn": "MY LABEL   ", "attr": rng.choice([0x08, 0x08, 0x28, 0x09, 0x0A, 0x28])})
     return entries
 
 
